@@ -61,3 +61,19 @@ func probe() {
 		fmt.Printf("   found=%v\n", len(tids) > 0)
 	}
 }
+
+func probe2() {
+	conf.CaseSensitive = false
+	m := seq.Mapping{"k": seq.NewSingleType(seq.TokenizerTypeKeyword, "", 0), "t": seq.NewSingleType(seq.TokenizerTypeText, "", 0)}
+	tk := map[seq.TokenizerType]tokenizer.Tokenizer{
+		seq.TokenizerTypeText:    tokenizer.NewTextTokenizer(72, false, false, 32768),
+		seq.TokenizerTypeKeyword: tokenizer.NewKeywordTokenizer(72, false, false),
+		seq.TokenizerTypePath:    tokenizer.NewPathTokenizer(72, false, false),
+		seq.TokenizerTypeExists:  tokenizer.NewExistsTokenizer(),
+	}
+	ix := bulk.VerifNewIndexer(m, tk)
+	doc := []byte("{\"k\":\"HELLO World\",\"t\":\"Some TEXT Here\"}")
+	fmt.Printf("before: %s\n", doc)
+	_, err := ix.Index(doc, time.Now())
+	fmt.Printf("after : %s err=%v\n", doc, err)
+}
